@@ -293,6 +293,7 @@ pub fn check_fault(c: &FaultCase) -> PResult {
     let lim = vrt::total::limits_for(input.len());
     let show = || format!("input {}\n schema {:?}", vcore::tval::hex(&input[..input.len().min(96)]), c.base.schema);
     let (res, _) = vrt::total::observe("pb-runtime-decode", lim, || OM::decode_with(&rs, Bytes::copy_from_slice(&input)).map(|o| o.m)).map_err(|f| Fail::new(&f.key, format!("{}\n {}", f.msg, show())))?;
+    ensure!(res.is_err() || !top_level_length_overrun(&input), "pb-runtime-accepts-overrun", "accepted although a top-level length prefix announces more bytes than the input holds\n {}", show());
     // the framing differential: a frame followed by more data is decoded like the slice alone
     let mut framed = vec![];
     put_varint(&mut framed, input.len() as u64);
@@ -324,6 +325,60 @@ pub fn check_fault(c: &FaultCase) -> PResult {
     Ok(())
 }
 
+/// Does a top-level length-delimited record announce more bytes than the input still holds?
+/// Walks plain top-level records only (varint, fixed, length-delimited); anything else - a group
+/// marker, an invalid key - ends the walk without a claim. This is the one malformation the
+/// property names: "a length prefix that exceeds the remaining input is rejected".
+pub fn top_level_length_overrun(b: &[u8]) -> bool {
+    fn varint(b: &[u8], pos: &mut usize) -> Option<u64> {
+        let mut v = 0u64;
+        for i in 0..10 {
+            let x = *b.get(*pos)?;
+            *pos += 1;
+            v |= ((x & 0x7f) as u64) << (7 * i);
+            if x < 0x80 {
+                return Some(v);
+            }
+        }
+        None
+    }
+    let mut pos = 0usize;
+    while pos < b.len() {
+        let Some(key) = varint(b, &mut pos) else { return false };
+        if key >> 3 == 0 || key >> 3 > 536870911 {
+            return false;
+        }
+        match key & 7 {
+            0 => {
+                if varint(b, &mut pos).is_none() {
+                    return false;
+                }
+            }
+            1 => {
+                if b.len() - pos < 8 {
+                    return false;
+                }
+                pos += 8;
+            }
+            5 => {
+                if b.len() - pos < 4 {
+                    return false;
+                }
+                pos += 4;
+            }
+            2 => {
+                let Some(n) = varint(b, &mut pos) else { return false };
+                if ((b.len() - pos) as u64) < n {
+                    return true;
+                }
+                pos += n as usize;
+            }
+            _ => return false,
+        }
+    }
+    false
+}
+
 /// The well-known wrapper messages (`impl Message for bool / u32 / ... / String / Vec<u8> / Bytes / ()`):
 /// any bytes give a value or an error; what is accepted re-encodes with `encoded_len` bytes and
 /// decodes to the same value again (NaN: the same bytes).
@@ -335,6 +390,8 @@ fn wrapper_probe<M: Message + Default + PartialEq + std::fmt::Debug>(name: &str,
     let (d, _) = vrt::total::observe(&format!("pb-wrapper-delimited-{}", name), lim, || M::decode_length_delimited(Bytes::copy_from_slice(input)).is_ok()).map_err(|f| Fail::new(&f.key, format!("{}
  {}", f.msg, show())))?;
     let _ = d;
+    // a length prefix beyond the end of the input is never a value
+    ensure!(r.is_err() || !top_level_length_overrun(input), "pb-wrapper-accepts-overrun", "accepted although a length prefix announces more bytes than the input holds: {:?}\n {}", r, show());
     if let Ok(m) = r {
         let out = catch(|| (m.encoded_len(), m.encode_to_vec())).map_err(|p| Fail::new(&format!("panic:pb-wrapper-reencode:{}", vrt::total::panic_signature(&p)), format!("re-encoding panicked: {}
  {}", p, show())))?;
@@ -365,7 +422,13 @@ pub fn check_wrappers(input: &[u8]) -> PResult {
 /// Inputs for the wrapper messages: a valid `value = 1` record of some wire type, optionally
 /// damaged, or raw bytes.
 fn arb_wrapper_input() -> BoxedStrategy<Vec<u8>> {
-    let rec = (0u8..6, any::<u64>(), prop::collection::vec(any::<u8>(), 0..20), 1u32..4).prop_map(|(k, v, payload, tag)| {
+    // values: anything, or the bit patterns at which a float / integer wrapper changes behaviour
+    let val = prop_oneof![
+        3 => any::<u64>(),
+        2 => prop::sample::select(vec![0u64, 1, 1 << 63, 0x8000_0000, f64::NAN.to_bits(), f32::NAN.to_bits() as u64, u64::MAX, i32::MIN as u32 as u64, i64::MIN as u64, u32::MAX as u64, 127, 128]),
+        2 => 0u64..40,
+    ];
+    let rec = (0u8..6, val, prop::collection::vec(any::<u8>(), 0..20), 1u32..4).prop_map(|(k, v, payload, tag)| {
         let mut o = vec![];
         match k {
             0 => {
@@ -399,7 +462,19 @@ fn arb_wrapper_input() -> BoxedStrategy<Vec<u8>> {
         }
         o
     });
+    // field 1 twice: a complete first occurrence, then one that announces at most as many bytes
+    // and is cut short
+    let twice = (1usize..20, 0usize..20, 0usize..20, any::<u8>()).prop_map(|(n1, n2, have, fill)| {
+        let n2 = 1 + n2 % n1;
+        let have = have % n2;
+        let mut o = vec![0x0a, n1 as u8];
+        o.extend(std::iter::repeat(b'a' + fill % 26).take(n1));
+        o.extend_from_slice(&[0x0a, n2 as u8]);
+        o.extend(std::iter::repeat(b'b').take(have));
+        o
+    });
     prop_oneof![
+        2 => twice,
         4 => prop::collection::vec(rec, 1..4).prop_map(|v| v.concat()),
         2 => (prop::collection::vec(any::<u8>(), 0..40)),
         1 => prop::collection::vec(prop_oneof![0u8..24, any::<u8>()], 0..30),
@@ -543,7 +618,7 @@ pub fn check_merge(c: &MergeCase) -> PResult {
     }
 }
 
-pub const C18_RULE: &str = "runtime part: run-time described messages over the codec modules (known groups, hash and btree maps, every scalar codec, field numbers that share their leading key byte), pairs (a, b) of values of one schema: decode(enc(a) ++ enc(b)) and decode(enc(a)).merge(enc(b)) equal the reference merge (last singular scalar wins, repeated and packed append, map keys replace, embedded messages and groups merge field-wise)";
+pub const C18_RULE: &str = "runtime part: run-time described messages over the codec modules (known groups, hash and btree maps, every scalar codec, field numbers that share their leading key byte), pairs (a, b) of values of one schema: decode(enc(a) ++ enc(b)) and decode(enc(a)).merge(enc(b)) equal the reference merge (last singular scalar wins, repeated and packed append, map keys replace, embedded messages and groups merge field-wise); the wrapper messages (bool ... Bytes) given field 1 two or three times, with and without unknown fields in between: the last occurrence is the value";
 
 pub fn c18_runtime_part(ctx: &Ctx, rec: &std::cell::RefCell<vcore::evidence::Recorder>) {
     let cases = ctx.tier.pick(20_000, 600_000);
@@ -562,10 +637,95 @@ pub fn c18_runtime_part(ctx: &Ctx, rec: &std::cell::RefCell<vcore::evidence::Rec
     });
     if let Some((case, f)) = res {
         report(ctx, rec, "pb-runtime-merge", &case, &f);
+        return;
+    }
+    c18_wrapper_part(ctx, rec);
+}
+
+/// The wrapper messages under merge: of several occurrences of field 1 the last one is the value
+/// (unknown fields in between are ignored), for `decode` of the concatenation and for
+/// `decode` + `merge` alike.
+fn wrapper_merge<M: Message + Default + PartialEq + std::fmt::Debug>(name: &str, sk: Sk, vals: &[DV], junk: bool) -> PResult {
+    let rec_of = |v: &DV| {
+        let mut o = vec![];
+        put_key(&mut o, 1, sk.wire());
+        o.extend_from_slice(&key_bytes(sk, v));
+        o
+    };
+    let parts: Vec<Vec<u8>> = vals.iter().map(rec_of).collect();
+    let mut all = vec![];
+    for (i, p) in parts.iter().enumerate() {
+        all.extend_from_slice(p);
+        if junk && i + 1 < parts.len() {
+            all.extend_from_slice(&[0x10, 0x05, 0x1a, 0x01, 0x61]); // unknown fields 2 (varint) and 3 (bytes)
+        }
+    }
+    let want = M::decode(Bytes::copy_from_slice(parts.last().unwrap())).map_err(|e| Fail::new("pb-wrapper-merge-error", format!("{}: decoding one occurrence failed: {:?}", name, e)))?;
+    let show = || format!("wrapper {} occurrences {:?} bytes {}", name, vals, vcore::tval::hex(&all));
+    let concat = catch(|| M::decode(Bytes::copy_from_slice(&all))).map_err(|p| Fail::new(&format!("panic:pb-wrapper-merge:{}", vrt::total::panic_signature(&p)), format!("{}\n {}", p, show())))?;
+    let concat = concat.map_err(|e| Fail::new("pb-wrapper-merge-error", format!("decode of the concatenation failed: {:?}\n {}", e, show())))?;
+    ensure!(concat == want || concat.encode_to_vec() == want.encode_to_vec(), "pb-wrapper-last-wins", "the last occurrence is not the value: got {:?}, expected {:?}\n {}", concat, want, show());
+    let mut m = M::decode(Bytes::copy_from_slice(&parts[0])).map_err(|e| Fail::new("pb-wrapper-merge-error", format!("{:?}\n {}", e, show())))?;
+    for p in &parts[1..] {
+        m.merge(Bytes::copy_from_slice(p)).map_err(|e| Fail::new("pb-wrapper-merge-error", format!("merge failed: {:?}\n {}", e, show())))?;
+    }
+    ensure!(m == want || m.encode_to_vec() == want.encode_to_vec(), "pb-wrapper-last-wins", "decode + merge: the last occurrence is not the value: got {:?}, expected {:?}\n {}", m, want, show());
+    Ok(())
+}
+
+pub fn check_wrapper_merge(c: &(u8, Vec<DV>, bool)) -> PResult {
+    let (which, vals, junk) = c;
+    match which % 11 {
+        0 => wrapper_merge::<bool>("bool", Sk::Bool, vals, *junk),
+        1 => wrapper_merge::<u32>("u32", Sk::Uint32, vals, *junk),
+        2 => wrapper_merge::<u64>("u64", Sk::Uint64, vals, *junk),
+        3 => wrapper_merge::<i32>("i32", Sk::Int32, vals, *junk),
+        4 => wrapper_merge::<i64>("i64", Sk::Int64, vals, *junk),
+        5 => wrapper_merge::<f32>("f32", Sk::Float, vals, *junk),
+        6 => wrapper_merge::<f64>("f64", Sk::Double, vals, *junk),
+        7 => wrapper_merge::<String>("String", Sk::Str, vals, *junk),
+        8 => wrapper_merge::<Vec<u8>>("Vec<u8>", Sk::BytesVec, vals, *junk),
+        9 => wrapper_merge::<Bytes>("Bytes", Sk::Bytes, vals, *junk),
+        _ => Ok(()),
+    }
+}
+
+fn wrapper_kind(which: u8) -> Sk {
+    [Sk::Bool, Sk::Uint32, Sk::Uint64, Sk::Int32, Sk::Int64, Sk::Float, Sk::Double, Sk::Str, Sk::BytesVec, Sk::Bytes, Sk::Bool][which as usize % 11]
+}
+
+pub fn c18_wrapper_part(ctx: &Ctx, rec: &std::cell::RefCell<vcore::evidence::Recorder>) {
+    let strat = (0u8..10).prop_flat_map(|w| (Just(w), prop::collection::vec(arb_sc(wrapper_kind(w)), 2..4), any::<bool>()));
+    let res = vcore::evidence::run_prop_noshrink(rec, "c18-wrappers", ctx.tier.pick(10_000, 300_000), strat, |c: &(u8, Vec<DV>, bool)| {
+        {
+            let mut r = rec.borrow_mut();
+            r.case(fp(&format!("{:?}", c)), true, || json!(format!("{:?}", c)));
+            r.class("runtime: wrapper message, several occurrences");
+        }
+        check_wrapper_merge(c)
+    });
+    if let Some((c, f)) = res {
+        report(ctx, rec, "pb-wrapper-merge", &json!({"which": c.0, "vals": c.1, "junk": c.2}), &f);
     }
 }
 
 pub fn c18_replay(ctx: &Ctx) -> i32 {
+    if ctx.replay.as_ref().map(|rp| rp["sub"].as_str() == Some("pb-wrapper-merge")).unwrap_or(false) {
+        let rp = ctx.replay.as_ref().unwrap();
+        let c = &rp["case"]["case"];
+        let case: (u8, Vec<DV>, bool) = (c["which"].as_u64().unwrap_or(0) as u8, serde_json::from_value(c["vals"].clone()).expect("vals"), c["junk"].as_bool().unwrap_or(false));
+        return match check_wrapper_merge(&case) {
+            Ok(()) => {
+                println!("replay: property holds on this case");
+                0
+            }
+            Err(f) => {
+                println!("VIOLATION property=C18 replay={}", ctx.replay_path.clone().unwrap_or_default());
+                println!("  key={} {}", f.key, f.msg);
+                1
+            }
+        };
+    }
     let rp = ctx.replay.as_ref().unwrap();
     match check_merge(&serde_json::from_value(rp["case"]["case"].clone()).expect("replay case")) {
         Ok(()) => {
